@@ -118,8 +118,21 @@ def same(a, b):
             if not same(x, y):
                 return False
         return True
+    if hasattr(a, "kind") and hasattr(b, "kind") and hasattr(a, "accept"):  # Notification objects (materialize)
+        if a.kind != b.kind:
+            return False
+        if a.kind == "N":
+            return same(a.value, b.value)
+        if a.kind == "E":
+            return same(a.exception, b.exception)
+        return True
     if isinstance(a, BaseException) or isinstance(b, BaseException):
-        return a is b
+        if a is b:
+            return True
+        # injected exceptions must be forwarded by identity; library-raised ones are compared by type and message
+        if isinstance(a, Injected) or isinstance(b, Injected):
+            return False
+        return type(a) is type(b) and str(a) == str(b)
     if isinstance(a, bool) or isinstance(b, bool):
         return isinstance(a, bool) and isinstance(b, bool) and a == b
     if isinstance(a, float) or isinstance(b, float):
@@ -141,6 +154,9 @@ def same_events(got, exp):
             return False
         if k1 == "E" and isinstance(p2, type):
             if not isinstance(p1, p2):
+                return False
+        elif k1 == "E":
+            if not same(p1, p2):
                 return False
         elif not same(p1, p2):
             return False
